@@ -117,6 +117,28 @@ def explore_program(forest):
                     stats["offered_accepted"] += 1
                     li = item_line(info, item, run)
                     out += [(s, w, ctx_) for s, w in effect_problems(kind, rec.get("item") or item, li, info, run, base, t, cls)]
+                    if kind == "force" and len(lines) <= 3 and sum(1 for _, c in lines if c.strip().split(":")[0] == cls) == 1 \
+                            and not any(c.strip().startswith("Alarm") for _, c in lines):       # (an Alarm runs its command line again)
+                        # a second request for the same item: cancel it 1..3 ticks after the accepted force, if still offered
+                        for dt in (1, 2, 3):
+                            later = run.obs[t + dt - 1]["runlog"] if t + dt - 1 < len(run.obs) else None
+                            if not isinstance(later, list):
+                                continue
+                            idx2 = [j for j, it2 in enumerate(later) if it2["id"] == item["id"] and it2["cancellable"]]
+                            if not idx2:
+                                continue
+                            run2, recs2 = drive(lines, ((t, ("force", k)), (t + dt, ("cancel", idx2[0]))))
+                            stats["exec"] += 1
+                            stats["second_request"] += 1
+                            ctx2 = {"lines": [c for _, c in lines], "schedule": [[t, ["force", k]], [t + dt, ["cancel", idx2[0]]]]}
+                            if len(recs2) == 2 and recs2[1]["accepted"]:
+                                stats["second_request_accepted"] += 1
+                                out += [(s_ + ":after-force", w, ctx2) for s_, w in
+                                        effect_problems("cancel", recs2[1].get("item") or later[idx2[0]], li, info, run2, run, t + dt, cls)]
+                            for ob in run2.obs:
+                                if "tick_exception" in ob:
+                                    out.append(("C12:tick-raised", ob["tick_exception"], ctx2))
+                            run2.cleanup()
                 for ob in run.obs:
                     if "tick_exception" in ob:
                         out.append(("C12:tick-raised", ob["tick_exception"], ctx_))
@@ -236,7 +258,8 @@ def run(ctx):
     ctx.coverage.update(
         states=tot["exec"], transitions=tot["exec"] * HORIZON, traces_validated_against_impl=tot["exec"],
         evaluations=tot["exec"], distinct_nontrivial=tot["offered_accepted"], programs=len(forests),
-        requests_for_items_not_offered=tot["not_offered"], offered_and_accepted=tot["offered_accepted"],
+        requests_for_items_not_offered=tot["not_offered"], offered_and_accepted=tot["offered_accepted"], second_requests_after_force=tot["second_request"],
+        second_requests_accepted=tot["second_request_accepted"],
         offered_but_rejected=tot["offered_rejected"],
         rule="one execution per (program, tick, run-log item index, cancel|force); non-trivial = the request addressed an offered "
              "item and was accepted (its effect predicate was evaluated)",
